@@ -162,12 +162,24 @@ def oracle_bind_scopes(src, ops, tail):
             if ln:
                 for r in ln["extra"].get("created", []):
                     newly[r] = (L, op.idx)
+        unneeded = set()      # nodes that became unnecessary earlier in this operation (and not necessary again since)
+        reran = set()         # lhs-change nodes that have already re-run in this operation
         for e in op.events:
             k = ev_kind(e)
+            if k == "unnec":
+                unneeded.add(ev_node(e))
+            elif k == "nec":
+                unneeded.discard(ev_node(e))
+            if k == "bindrun" and int(e.split("gen=")[1].split()[0]) >= 1:
+                reran.add(ev_node(e))
             if k in ("inv", "foldcall", "rec", "bindrun"):
                 n = ev_node(e)
                 if n in stale or n in newly:
                     L, at = stale.get(n) or newly.get(n)
+                    if n in newly and n not in stale and L in unneeded and L not in reran:
+                        return (f"op {op.idx}: `{e}` — node {n}, created by the previous run of bind {L} and kept alive from "
+                                f"outside, was recomputed while that bind was not needed; the bind's left-hand side had changed "
+                                f"and the bind re-ran later in the same stabilise")
                     return (f"op {op.idx}: `{e}` — node {n} was created by a run of bind {L} that was superseded "
                             f"(left-hand side changed at op {at})")
         stale.update(newly)
